@@ -555,4 +555,51 @@ def rule_f(ctx):
     rep.require('C19.e', 'entry objects filled in by the metadata parsers', n, 2)
 
 
-RULES = [('C19.a', rule_a), ('C19.b', rule_b), ('C19.c', rule_c), ('C19.d', rule_d), ('C12.f', rule_e), ('C19.e', rule_f)]
+
+def rule_route_record(ctx):
+    """C19.f  What the collector binds is what the handler declares: RouteInfo keeps the registered function itself and
+    `inspect.signature(<that function>)`, unmodified - every declared parameter, keyword-only ones included, is then
+    seen by _collect_route_arguments; a filtered or rebuilt signature silently stops passing some of them."""
+    rep = ctx.report
+    ri = ctx.repo.cls('rsocket.routing.request_router:RouteInfo')
+    init = ri.methods.get('__init__') if ri is not None else None
+    if init is None:
+        raise AnalysisError('C19.f: RouteInfo.__init__ vanished')
+    param = [p for p in init.params() if p != 'self'][0]
+    stores = {}
+    for n in walk_local(init.node):
+        t = n.targets[0] if isinstance(n, ast.Assign) else n.target if isinstance(n, ast.AnnAssign) else None
+        if t is not None and isinstance(t, ast.Attribute) and isinstance(t.value, ast.Name) and t.value.id == 'self' \
+                and getattr(n, 'value', None) is not None:
+            stores.setdefault(t.attr, []).append(n.value)
+    from ..astutil import resolve_temp
+    ok, detail = True, ''
+    m = stores.get('method', [])
+    if len(m) != 1 or not (isinstance(m[0], ast.Name) and m[0].id == param):
+        ok, detail = False, 'RouteInfo.method is not the registered function'
+    sg = stores.get('signature', [])
+    if len(sg) != 1:
+        ok, detail = False, 'RouteInfo.signature is stored %d times' % len(sg)
+    else:
+        v = resolve_temp(init.node, sg[0])
+        good = isinstance(v, ast.Call) and isinstance(v.func, (ast.Name, ast.Attribute)) and \
+            ast.unparse(v.func).split('.')[-1] == 'signature' and len(v.args) == 1 and \
+            isinstance(v.args[0], ast.Name) and v.args[0].id == param and not v.keywords
+        if not good:
+            ok, detail = False, ('RouteInfo.signature is %s, not inspect.signature(%s) as it is: parameters the handler '
+                                 'declares can be missing from what the collector binds' % (ast.unparse(sg[0])[:80], param))
+    rep.add('C19.f', 'RouteInfo.__init__ / the function and its signature, unmodified', init, ok,
+            detail or 'self.method = %s; self.signature = signature(%s)' % (param, param))
+    # ... and the collector walks that signature's parameters, all of them
+    router = ctx.repo.cls(ROUTER)
+    col = router.lookup('_collect_route_arguments')
+    loops = [n for n in walk_local(col.node) if isinstance(n, ast.For) and 'parameters' in ast.unparse(n.iter)]
+    ok = len(loops) == 1 and 'signature' in ast.unparse(col.node) and not [
+        x for x in walk_local(loops[0]) if isinstance(x, (ast.Break,))] if loops else False
+    rep.add('C19.f', 'RequestRouter._collect_route_arguments / every declared parameter is visited', col, ok,
+            'one loop over <signature>.parameters without break' if ok else
+            'the collector does not iterate all parameters of the stored signature')
+
+
+
+RULES = [('C19.a', rule_a), ('C19.b', rule_b), ('C19.c', rule_c), ('C19.d', rule_d), ('C12.f', rule_e), ('C19.e', rule_f), ('C19.f', rule_route_record)]
